@@ -7,6 +7,8 @@ package main
 
 import (
 	"bytes"
+	"encoding/hex"
+	"encoding/json"
 	"fmt"
 	"os"
 	"sort"
@@ -222,6 +224,13 @@ func c04Classify(k c04Cfg, s []int, res c04Result) (class, what string) {
 		k1 := k
 		k1.Layers = 1
 		if c04RoundTrip(k1, pix).Outcome == "ok" {
+			if k.TW != 0 || k.TH != 0 {
+				k2 := k
+				k2.TW, k2.TH = 0, 0
+				if c04RoundTrip(k2, pix).Outcome == "ok" {
+					return "j2k-tiled-multilayer-" + res.Outcome, "tiled encoding with NumLayers>=2 (writeTilesWithGlobalRateDistortion path) fails where the same tiling with one layer and the single-tile image with the same layers both round-trip"
+				}
+			}
 			if c04NonPrefixBands(k) {
 				return "j2k-multilayer-empty-band-decoder-state", c04MultilayerWhat
 			}
@@ -365,6 +374,46 @@ func c04RandCfg(r *hx.Rand, maxDim int) c04Cfg {
 	return k
 }
 
+// c04Corpus replays findings/witnesses/C04-rare-content-dependent.json (packet headers ending on a full 0xFF byte,
+// fix aaeb057) through the public API.
+func c04Corpus(c *hx.Ctx) {
+	for _, path := range []string{"../findings/witnesses/C04-rare-content-dependent.json", "findings/witnesses/C04-rare-content-dependent.json"} {
+		b, err := os.ReadFile(path)
+		if err != nil {
+			continue
+		}
+		var ws []struct {
+			Input map[string]any `json:"input"`
+		}
+		if json.Unmarshal(b, &ws) != nil {
+			return
+		}
+		for _, w := range ws {
+			gi := func(k string) int { v, _ := w.Input[k].(float64); return int(v) }
+			hexs, _ := w.Input["pixels_hex"].(string)
+			pix, err := hex.DecodeString(hexs)
+			if err != nil || len(pix) == 0 {
+				continue
+			}
+			sg, _ := w.Input["signed"].(bool)
+			mct, _ := w.Input["enableMCT"].(bool)
+			k := c04Cfg{W: gi("width"), H: gi("height"), C: gi("components"), P: gi("bitDepth"), Signed: sg, Levels: gi("numLevels"),
+				CBW: gi("codeBlockWidth"), CBH: gi("codeBlockHeight"), PW: gi("precinctWidth"), PH: gi("precinctHeight"),
+				Prog: gi("progression"), Layers: gi("numLayers"), MCT: mct}
+			res := c04RoundTrip(k, pix)
+			c.Eval("corpus|"+k.String(), true)
+			c.Count("outcome:" + res.Outcome)
+			c.Count("corpus-witness")
+			if res.Outcome != "ok" {
+				c04Fail(c, hx.Failure{Class: "j2k-corpus-regression-" + res.Outcome, What: "a stored witness of a repaired defect fails again",
+					Input: k.input(pix), Expected: "round trip", Actual: res.Outcome + ": " + res.Detail})
+			}
+		}
+		return
+	}
+	c.Count("corpus-missing")
+}
+
 func init() { register("C04", c04Run) }
 
 func c04Run(c *hx.Ctx) {
@@ -374,6 +423,8 @@ func c04Run(c *hx.Ctx) {
 	// --- correspondence lines for the proved layers (Lean driver vs real functions through verif hooks)
 	c04Correspondence(c)
 
+	// --- corpus: stored witnesses of past failures (regression anchors; must pass on the current tree)
+	c04Corpus(c)
 	// --- boundary cases first
 	base := c04Cfg{W: 1, H: 1, C: 1, P: 8, Levels: 0, CBW: 64, CBH: 64, Layers: 1, MCT: true}
 	for _, wh := range [][2]int{{1, 1}, {1, 2}, {2, 1}, {1, 9}, {9, 1}, {3, 3}, {63, 65}, {64, 64}, {65, 63}} {
